@@ -39,6 +39,8 @@ def hungarian_jobs(quick, rng):
     import athlib
     H = sys.modules['athlib.hungarian_score']
     jobs = []
+    if not isinstance(getattr(H, 'FACTORS', None), (list, tuple)):
+        return jobs          # the coefficient list is not kept under its name: the Hungarian domain cannot be derived
     cap = 4000 if quick else 200000
     for (g, io, ev, a, b, c) in H.FACTORS:
         if b < 0:       # timed: from a third of the zero-point mark up to the zero point (no slower)
@@ -96,7 +98,10 @@ def run(tier):
         rep.cov['records']['seg:athlon'] = len(arecs)
         rep.cov['records']['seg:hungarian'] = len(hrecs)
         rep.cov['distinct_nontrivial'] += sum(len(x['segs']) for x in arecs) + sum(len(x['segs']) for x in hrecs)
-        rep.sample({'hungarian': hrecs[0]['key'], 'segs': hrecs[0]['segs'][:4]})
+        if hrecs:
+            rep.sample({'hungarian': hrecs[0]['key'], 'segs': hrecs[0]['segs'][:4]})
+        else:
+            rep.notes.append('athlib.hungarian_score.FACTORS is not available under its name: the Hungarian sweep was not run')
     rep.assumptions += ['Hungarian: integer results and monotonicity on the monotone side of the parabola only (marks no slower than the zero point); no bounds are asserted for it',
                         'all adjacent pairs = adjacent runs of the run-length encoded ascending grid (equal values inside a run)']
     return rep.finish()
